@@ -335,6 +335,7 @@ fn gen(r: &mut Rng, tier: Tier, out: &mut Out) {
 	for _ in 0..sets {
 		let n = r.range(2, 4);
 		let mut cfg = MapCfg::basic(n);
+		cfg.top_doc_pct = 30;
 		cfg.max_classes = r.range(2, 5);
 		cfg.max_members = r.range(1, 3);
 		cfg.nest_depth = r.range(0, 1);
@@ -405,6 +406,7 @@ fn edge_stream(r: &mut Rng, tier: Tier, out: &mut Out) {
 	for _ in 0..sets {
 		let n = r.range(2, 4);
 		let mut cfg = MapCfg::basic(n);
+		cfg.top_doc_pct = 30;
 		cfg.max_classes = r.range(2, 4);
 		cfg.max_members = r.range(1, 2);
 		cfg.nest_depth = 0;
